@@ -141,6 +141,16 @@ class Program:
             return ("cast", t[1], S(t[2]), t[3])
         if tag == "field":
             base = S(t[1])
+            if t[2] == "0" and base[0] == "as" and base[2] == "Some" and base[1][0] == "call" \
+                    and base[1][1] == "Option::map" and len(base[1][2]) == 2 and base[1][2][1][0] == "closure":
+                # payload of x.map(f) is f(payload of x)
+                from .engines.schemas import closure_return_term, subst
+                cb, ret = closure_return_term(self, base[1][2][1])
+                if cb is not None:
+                    inner = ("field", ("as", _opt_transparent(base[1][2][0]), "Some"), "0")
+                    params = [st for st in subterms(ret) if st[0] == "param" and st[1] == 2]
+                    mapping = {p: inner for p in params}
+                    return S(subst(ret, mapping))
             if base[0] == "adt":
                 for n, v in base[3]:
                     if n == t[2]:
@@ -162,6 +172,7 @@ class Program:
             return ("field", base, t[2])
         if tag == "as":
             base = S(t[1])
+            base = _opt_transparent(base)
             return ("as", base, t[2])
         if tag == "index":
             base, ix = S(t[1]), S(t[2])
@@ -169,7 +180,11 @@ class Program:
                 return base[1][ix[1]]
             return ("index", base, ix)
         if tag == "discr":
-            return ("discr", S(t[1]), t[2])
+            base = S(t[1])
+            base = _opt_transparent(base)
+            if base[0] == "call" and base[1] in ("Option::map",) and len(base[2]) == 2:
+                base = _opt_transparent(base[2][0])
+            return ("discr", base, t[2])
         if tag in ("tuple", "array"):
             return (tag, tuple(S(x) for x in t[1]))
         if tag == "adt":
@@ -217,6 +232,16 @@ class Program:
             seen.add(x)
             st.extend(cg[x])
         return seen
+
+
+_OPT_TRANSPARENT = {"Option::copied", "Option::cloned", "Option::as_ref", "Option::as_deref", "Option::as_mut"}
+
+
+def _opt_transparent(t):
+    """Option adapters that keep the variant and (up to a reference) the payload."""
+    while t[0] == "call" and t[1] in _OPT_TRANSPARENT and len(t[2]) == 1:
+        t = t[2][0]
+    return t
 
 
 def _subst_params(term, args):
